@@ -47,12 +47,14 @@ Rep(x, n) == IF n = 0 THEN <<>> ELSE <<x>> \o Rep(x, n - 1)
 RECURSIVE Cat(_, _)
 Cat(f, n) == IF n = 0 THEN <<>> ELSE Cat(f, n - 1) \o f[n]
 
+RECURSIVE SumTo(_, _)
+SumTo(f, j) == IF j = 0 THEN 0 ELSE f[j] + SumTo(f, j - 1)
 \* entry j of the file is handed out Copies(k, w)[j] times per pass, copies adjacent, file order
 Copies(k, w) == IF k \in ScnKinds /\ Len(w) > 1
                 THEN [j \in 1..Len(w) |-> w[j] \div GCDSeq(w)]
                 ELSE [j \in 1..Len(w) |-> 1]
 Ring(k, w)   == Cat([j \in 1..Len(w) |-> Rep(j, Copies(k, w)[j])], Len(w))
-RingLen(k, w) == Len(Ring(k, w))
+RingLen(k, w) == LET cp == Copies(k, w) IN SumTo(cp, Len(w))
 
 ----------------------------------------------------------------------------
 (* The property as a function of the cell *)
@@ -65,14 +67,24 @@ Expected(c) == IF Bounded(c) THEN Min(BoundSet(c)) ELSE -1
 Cap(c)      == (IF Bounded(c) THEN Expected(c) ELSE 0) + 2 * Entries(c) + 3
 \* consumers stop taking and the run is cancelled when Stop(c) items were taken
 Stop(c)     == IF c.cut > 0 THEN c.cut ELSE Cap(c)
-\* how many times entry j is among the first n deliveries (cyclic file / ring order)
-Hist(c, n)  == LET r == Ring(c.kind, c.w) IN
+\* how many times entry j is among the first n deliveries (cyclic file / ring order): every full round hands out
+\* Copies[j]; in the last, partial round entry j occupies ring positions Before(j)+1 .. Before(j)+Copies[j]
+Hist(c, n)  == LET cp == Copies(c.kind, c.w)
+                   L  == SumTo(cp, Len(c.w))
+                   rem == n % L
+                   part(j) == LET b == SumTo(cp, j - 1) IN
+                              IF rem <= b THEN 0 ELSE IF rem - b >= cp[j] THEN cp[j] ELSE rem - b
+               IN [j \in 1..Len(c.w) |-> (n \div L) * cp[j] + part(j)]
+\* (the same, by counting over the explicit ring: used to cross-check Hist on the small matrix)
+HistByRing(c, n) == LET r == Ring(c.kind, c.w) IN
                [j \in 1..Len(c.w) |-> Cardinality({i \in 0..(n - 1) : r[(i % Len(r)) + 1] = j})]
 
 CellOK(c) == /\ c.cut > 0 => (Bounded(c) => c.cut < Expected(c))   \* an early cut is a cut
              /\ c.kind \notin ScnKinds => \A j \in 1..Len(c.w) : c.w[j] = 1   \* weights only matter for scenarios
-Cells == {c \in UNION {[kind : {km[1]}, preload : {km[2]}, limit : Limits, passes : PassesSet,
-                         w : WeightSets, nc : Consumers, cut : Cuts] : km \in KindModes} : CellOK(c)}
+CellsOf(KM, Ls, Ps, Ws, Cs, Cu) ==
+    {c \in UNION {[kind : {km[1]}, preload : {km[2]}, limit : Ls, passes : Ps, w : Ws, nc : Cs, cut : Cu] : km \in KM} :
+        CellOK(c)}
+Cells == CellsOf(KindModes, Limits, PassesSet, WeightSets, Consumers, Cuts)
 
 ----------------------------------------------------------------------------
 VARIABLES c,          \* the cell
@@ -93,13 +105,15 @@ InitPc(cc) == IF cc.kind \in HttpKinds THEN (IF cc.preload THEN "load" ELSE "fs_
               ELSE IF cc.kind \in ScnKinds THEN "pre_iter"
               ELSE IF cc.kind = "grpcjson" THEN "g_pass" ELSE "j_limit"
 
-Init == /\ c \in Cells
+InitWith(S) ==
+        /\ c \in S
         /\ pc = InitPc(c)
         /\ pos = 0 /\ ammoNum = 0 /\ passNum = 0 /\ nload = 0 /\ inner = 0
         /\ sink = 0 /\ sinkClosed = FALSE /\ res = "none"
         /\ cancelled = FALSE /\ ucancel = FALSE
         /\ delivered = 0 /\ drained = 0 /\ nrun = c.nc /\ neof = 0
         /\ idle = 0 /\ aftc = 0 /\ skips = 0
+Init == InitWith(Cells)
 
 ----------------------------------------------------------------------------
 (* decisions that the fixes / mutants touch *)
